@@ -26,10 +26,11 @@ from .. import c19_catalogue as CAT
 
 PID = "C19"
 GEN = os.path.join(SPEC, "gen")
-FAMILIES = ("options", "variables", "environments", "status", "output", "names")
+FAMILIES = ("options", "variables", "environments", "status", "output", "names", "history")
 INVARIANTS = ("TypeOK", "RoundTrip", "FixedPoint", "NoKeywordClash", "StageFilesSelfContained")
 FAULTS = {"parse-drops-max-restarts": "options", "two-options-one-keyword": "options", "no-migration": "variables",
-          "env-name-cut-at-hyphen": "names", "component-variable-equal-to-global-not-written": "variables"}
+          "env-name-cut-at-hyphen": "names", "component-variable-equal-to-global-not-written": "variables",
+          "stale-stage-files-kept": "history"}
 ABSENT = "<absent>"
 
 
@@ -101,6 +102,7 @@ def run_models(chk, tier):
     jobs.append(("witness", "WitnessPairFolded", write_cfg("Dosini_witness_pair.cfg", "options", "quick", False, invariants=("WitnessPairFolded",))))
     jobs.append(("witness", "WitnessMigration", write_cfg("Dosini_witness_migration.cfg", "variables", "quick", False, invariants=("WitnessMigration",))))
     jobs.append(("witness", "WitnessLayering", write_cfg("Dosini_witness_layering.cfg", "variables", "quick", False, invariants=("WitnessLayering",))))
+    jobs.append(("witness", "WitnessFewerStages", write_cfg("Dosini_witness_fewer.cfg", "history", "quick", False, invariants=("WitnessFewerStages",))))
     jobs.append(("witness", "WitnessPrefixNames", write_cfg("Dosini_witness_prefix.cfg", "names", "quick", False, invariants=("WitnessPrefixNames",))))
     jobs.append(("witness", "WitnessManyStages", write_cfg("Dosini_witness_stages.cfg", "names", "quick", False, invariants=("WitnessManyStages",))))
     jobs.append(("coverage", "variables", write_cfg("Dosini_cov.cfg", "variables", "quick", False)))
@@ -300,7 +302,7 @@ def to_instance(env, doc, inject):
     return conc.instance(ignore_errors=True, inject_missing_fields=inject, fill_in_all=False, is_primitive=True)
 
 
-def write_and_read(env, instance, directory):
+def write_and_read(env, instance, directory, previous=None):
     # dump(update_existing=True) removes stale stage files itself; the other files of a previous case are removed here
     # (cheaper than removing the directory for every case)
     for name in ("status.conf", "output.conf", "variables.conf", "experiment.instance.conf"):
@@ -311,6 +313,11 @@ def write_and_read(env, instance, directory):
     for name in os.listdir(os.path.join(directory, "stages.d")) if os.path.isdir(os.path.join(directory, "stages.d")) else []:
         os.remove(os.path.join(directory, "stages.d", name))
     dos = env.D.Dosini()
+    if previous is not None:
+        # family "history": an older description was written into the same directory before (nothing is cleaned in between)
+        dos.dump(previous, directory, update_existing=True, is_instance=True)
+        dos._dump_status(previous, directory)
+        dos._dump_output(previous, directory)
     dos.dump(instance, directory, update_existing=True, is_instance=True)
     dos._dump_status(instance, directory)
     dos._dump_output(instance, directory)
@@ -431,6 +438,9 @@ def execute_case(env, case, atoms, scratch, second_round=True):
         doc, exp = render_case(case, atoms)
         instance = to_instance(env, doc, case["inject"])
         written = view_of(env, instance)
+        previous = None
+        if case.get("previous"):
+            previous = to_instance(env, render_case(case["previous"], atoms)[0], case["previous"]["inject"])
     except Exception as e:
         res["machinery"] = "the harness built an instance the real FlowIR cannot resolve (case %s): %r" % (case_label(case, atoms), e)
         return res
@@ -440,7 +450,7 @@ def execute_case(env, case, atoms, scratch, second_round=True):
         return res
     d1 = os.path.join(scratch, "rt1")
     try:
-        loaded = write_and_read(env, instance, d1)
+        loaded = write_and_read(env, instance, d1, previous=previous)
     except Exception as e:
         tb = traceback.extract_tb(e.__traceback__)
         site = [f.name for f in tb if f.filename.endswith("dosini.py")]
@@ -504,6 +514,10 @@ def case_label(case, atoms):
                                                                 for e in sorted(case["envs"], key=lambda e: e["name"])), case["apps"], case["venvs"])
     if fam == "status":
         return "status[%s]" % ", ".join("%s@%s" % (s["form"], s["w"]) for s in case["status"])
+    if fam == "history":
+        def shape(c):
+            return "%d stages%s%s" % (c["nstages"], " +" + ",".join(c["comps"]) if c["comps"] else "", " +env,vars,status,output" if c["status"] else "")
+        return "history[written first: %s; then into the same directory: %s]" % (shape(case["previous"]), shape(case))
     if fam == "names":
         what = {"env": sorted(e["name"] for e in case["envs"]), "envvar": sorted(n for e in case["envs"] for n in e["vars"]),
                 "comp": sorted(case["comps"]), "var": sorted("%s@%s" % (v["name"], v["scope"]) for v in case["vars"]),
@@ -704,6 +718,11 @@ def other_key(case, res, neutral_sig):
     suffix = round_suffix(res)
     if neutral_sig and not (signature(res) - neutral_sig):
         return "roundtrip:no-option-set" + suffix        # the instance without anything in this section fails the same way
+    if fam == "history":
+        a, b = case["previous"]["nstages"], case["nstages"]
+        rel = "fewer-stages" if b < a else ("more-stages" if b > a else "same-stages")
+        wrong = sorted({("component" if c in ("component",) or c.startswith("stage") else c) for c, p, x, y in (res["diffs"] or res["diffs2"] or res["spec_bad"])})
+        return "roundtrip:rewrite-into-same-directory:%s:%s%s" % (rel, "+".join(wrong) or "write-read", suffix)
     if fam == "variables":
         if any(v["cls"] == "percent" for v in case["vars"]):
             return "roundtrip:value:lone-percent"
@@ -757,13 +776,14 @@ def other_key(case, res, neutral_sig):
 def case_key(case):
     return (case["fam"], case["backend"], case["layer"], case["inject"], tuple(case["opts"]),
             json.dumps([case["vars"], case["envs"], case["apps"], case["venvs"], case["status"], case["output"], case["comps"], case["nstages"]],
-                       sort_keys=True))
+                       sort_keys=True)) + ((case_key(case["previous"]),) if case.get("previous") else ())
 
 
 def order_key(case):
     """simplest cases first: the first failing case of a key becomes its replay file"""
     return (FAMILIES.index(case["fam"]), len(case["opts"]), case["backend"] != "local", case["layer"] != "component", case["inject"],
-            len(case["vars"]) + len(case["envs"]) + len(case["output"]) + len(case["comps"]) + case["nstages"], case_key(case))
+            len(case["vars"]) + len(case["envs"]) + len(case["output"]) + len(case["comps"]) + case["nstages"]
+            + (case["previous"]["nstages"] + len(case["previous"]["comps"]) + len(case["previous"]["status"]) if case.get("previous") else 0), case_key(case))
 
 
 def normalise_case(case):
@@ -776,6 +796,8 @@ def normalise_case(case):
     case["comps"] = sorted(case.get("comps", []))
     case.setdefault("nstages", 2)
     case.setdefault("kind", "")
+    if case.get("previous"):
+        normalise_case(case["previous"])
     return case
 
 
@@ -989,6 +1011,78 @@ def check_configuration_class(chk, env, atoms, cases, layering=()):
     return n, len(unusable)
 
 
+def check_configuration_class_history(chk, env, atoms, cases):
+    """conf.py anchor, histories: a legacy package is instantiated (instance files written), the package is replaced by one with
+    fewer / more / the same number of stages and instantiated again in the same directory (updateInstanceFiles=True), then the
+    instance is loaded.  Compared: the configuration that wrote the instance files the second time against the one that read them."""
+    import experiment.model.conf as conf
+    import experiment.model.errors as errors
+    root = os.path.join(chk.scratch, "pkg_history")
+    n, refused, seen = 0, 0, {}
+
+    def package(case):
+        doc, _ = render_case(case, atoms)
+        return env.FL.FlowIRConcrete(copy.deepcopy(doc), "default", {}).instance(ignore_errors=True, inject_missing_fields=False,
+                                                                                fill_in_all=False, is_primitive=True)
+
+    for case in cases:
+        prev = case["previous"]
+        if case["comps"] or prev["comps"] or bool(case["status"]) != bool(prev["status"]):
+            continue
+        confdir = os.path.join(root, "conf")
+        shutil.rmtree(root, ignore_errors=True)
+        os.makedirs(confdir)
+        a, b = prev["nstages"], case["nstages"]
+        key = "configuration-class:roundtrip:rewrite-into-same-directory:%s" % ("fewer-stages" if b < a else ("more-stages" if b > a else "same-stages"))
+        chk.evaluated(("conf-history",) + case_key(case))
+        try:
+            env.D.Dosini().dump(package(prev), confdir, update_existing=True, is_instance=False)
+            conf.DOSINIExperimentConfiguration(root, "default", [], {}, is_instance=False, createInstanceFiles=True, primitive=True)
+            # the package is replaced (only the instance files of the first instantiation stay in the directory)
+            for base, _, files in os.walk(confdir):
+                for f in files:
+                    if not f.endswith(".instance.conf"):
+                        os.remove(os.path.join(base, f))
+            env.D.Dosini().dump(package(case), confdir, update_existing=True, is_instance=False)
+        except errors.ExperimentInvalidConfigurationError:
+            refused += 1
+            continue
+        except Exception as e:
+            raise MachineryError("cannot prepare the legacy packages for %s: %r" % (case_label(case, atoms), e))
+        try:
+            c1 = conf.DOSINIExperimentConfiguration(root, "default", [], {}, is_instance=False, createInstanceFiles=True, primitive=True,
+                                                    updateInstanceFiles=True)
+            c2 = conf.DOSINIExperimentConfiguration(root, "default", [], {}, is_instance=True, createInstanceFiles=False, primitive=True)
+        except errors.ExperimentInvalidConfigurationError as e:
+            bad = ["loading the instance files raised %s" % str(e)[:300].replace("\n", " ")]
+            c1 = c2 = None
+        else:
+            bad = []
+            ids1, ids2 = set(c1._concrete.get_component_identifiers(True)), set(c2._concrete.get_component_identifiers(True))
+            for cid in sorted(ids1 ^ ids2):
+                bad.append("component stage%d.%s: %s in the configuration that wrote the files, %s in the one that read them" % (
+                    cid[0], cid[1], "present" if cid in ids1 else "absent", "present" if cid in ids2 else "absent"))
+            for cid in sorted(ids1 & ids2):
+                f1 = CAT.flatten(c1._concrete.get_component_configuration(cid, raw=False, include_default=True))
+                f2 = CAT.flatten(c2._concrete.get_component_configuration(cid, raw=False, include_default=True))
+                for k in sorted(set(f1) | set(f2)):
+                    va, vb = f1.get(k, ABSENT), f2.get(k, ABSENT)
+                    if (str(va) != str(vb)) if k.startswith("variables.") else (not same(va, vb)):
+                        bad.append("stage%d.%s %s: written %r, read %r" % (cid[0], cid[1], k, va, vb))
+            if c1._concrete.get_stage_number() != c2._concrete.get_stage_number():
+                bad.append("number of stages: written %d, read %d" % (c1._concrete.get_stage_number(), c2._concrete.get_stage_number()))
+        n += 1
+        if bad:
+            seen[key] = seen.get(key, 0) + 1
+            if seen[key] == 1 or key in chk.known_keys:
+                chk.violation(key, "%s via DOSINIExperimentConfiguration: %s" % (case_label(case, atoms), "; ".join(bad[:3])),
+                              {"case": case, "via": "configuration-class-history"})
+        else:
+            chk.trace_validated()
+    chk.cov["configuration_class_history"] = {"cases": n, "packages_refused": refused, "failing_cases_per_key": seen}
+    return n, refused
+
+
 def run(tier):
     chk = Check(PID, tier)
     try:
@@ -1010,6 +1104,8 @@ def _run(chk, tier):
     observe_inexpressible(chk, env, atoms)
     nconf, refused = check_configuration_class(chk, env, atoms, [c for c, r in results.get("options", [])],
                                                layering=[c for c, r in results.get("variables", []) if is_layering(c) and one_chain(c)])
+    nh, rh = check_configuration_class_history(chk, env, atoms, [c for c, r in results.get("history", [])])
+    nconf, refused = nconf + nh, refused + rh
     for fam in FAMILIES:
         for case, res in results.get(fam, [])[:1]:
             chk.sample({"family": fam, "case": case_label(case, atoms), "result": "round-trips" if not failed(res) else describe(res)}, limit=8)
@@ -1050,6 +1146,9 @@ def replay(path):
     atoms = {a["idx"]: a for a in CAT.atoms()}
     env = Env()
     case = normalise_case(d["replay"]["case"])
+    if d["replay"].get("via") == "configuration-class-history":
+        check_configuration_class_history(chk, env, atoms, [case])
+        return chk.finish()
     if d["replay"].get("via") == "configuration-class":
         check_configuration_class(chk, env, atoms, [case])
         return chk.finish()
